@@ -27,7 +27,8 @@ type c02Att struct {
 	observed bool
 	amount   int64
 	appl     bool
-	compass  int // index of the stored claim's compass id ("compass-<k>"), 0 = none / unknown
+	compass  int      // index of the stored claim's compass id ("compass-<k>"), 0 = none / unknown
+	ev       c02Event // the stored claim, field by field
 }
 
 // c02Compass names the bridge deployment ids of the C02 generator; index 1 is the fixture's skyCompass.
@@ -55,9 +56,12 @@ type c02Harness struct {
 	claimAmt     map[string]int64 // hash -> amount (0 when not applicable)
 	obsNonces    []uint64         // nonces observed in this epoch, in order
 	seenObserved map[string]bool
-	epochStart   uint64         // cursor value installed by the last governance override (0 at genesis)
-	obsCount     map[uint64]int // nonce -> attestations that became observed since the last override
-	dep          int            // index of the bridge deployment id installed by the last activation
+	epochStart   uint64                  // cursor value installed by the last governance override (0 at genesis)
+	obsCount     map[uint64]int          // nonce -> attestations that became observed since the last override
+	dep          int                     // index of the bridge deployment id installed by the last activation
+	cids         map[string]int          // claim identity (all fields) -> number used on the protocol line
+	acceptedBy   map[string]map[int]bool // claim identity -> validators whose vote for exactly that claim was accepted
+	executedTx   map[int]bool            // transfers of batches whose executed-batch claim took effect
 }
 
 func (c *c02Harness) valIndex(oper string) int {
@@ -78,7 +82,7 @@ func (c *c02Harness) atts() []c02Att {
 			c.r.t.Fatal(err)
 		}
 		h, _ := claim.ClaimHash()
-		a := c02Att{nonce: claim.GetSkywayNonce(), hash: new(big.Int).SetBytes(h).String(), observed: att.Observed, compass: c02CompassIndex(claim.GetCompassID())}
+		a := c02Att{nonce: claim.GetSkywayNonce(), hash: new(big.Int).SetBytes(h).String(), observed: att.Observed, compass: c02CompassIndex(claim.GetCompassID()), ev: c.eventOf(claim)}
 		for _, v := range att.Votes {
 			a.votes = append(a.votes, c.valIndex(v))
 		}
@@ -134,8 +138,9 @@ func (c *c02Harness) state() string {
 		}
 		fmt.Fprintf(&sb, "%d:%s:%s:%d", a.nonce, a.hash, strings.Join(vs, "."), o)
 	}
-	fmt.Fprintf(&sb, " minted=%s", e.in.BankKeeper.GetSupply(e.ctx, e.denoms[0]).Amount)
+	fmt.Fprintf(&sb, " supply=%s", e.in.BankKeeper.GetSupply(e.ctx, e.denoms[0]).Amount)
 	fmt.Fprintf(&sb, " dep=%d", c02CompassIndex(e.raw.GetLatestCompassID(e.ctx, skyChain)))
+	sb.WriteString(c.bridgeState())
 	return sb.String()
 }
 
@@ -190,38 +195,550 @@ func TestC02(t *testing.T) {
 	defer r.Close()
 	nops := int(envInt("VERIF_OPS", 45))
 	for cs := 0; cs < r.N; cs++ {
-		runC02Case(t, r, nops)
+		runC02Case(t, r, nops, cs)
 	}
 }
 
-func runC02Case(t *testing.T, r *Rec, nops int) {
+const c02OtherToken = "0x2000000000000000000000000000000000000009" // unregistered: no denom, no batches
+
+var c02Senders = []string{"0x00000000000000000000000000000000000000bb", "0x00000000000000000000000000000000000000cc"}
+
+// c02Event is one claim about a remote-chain event as a validator reports it. EVERY field is part of the
+// claim's identity (`key`), whatever the implementation's ClaimHash covers.
+type c02Event struct {
+	kind     string // "dep": MsgSendToPalomaClaim, "exec": MsgBatchSendToRemoteClaim
+	n, eth   uint64
+	token    string
+	compass  int
+	amount   int64  // dep
+	sender   string // dep
+	receiver int    // dep: user index
+	batch    uint64 // exec: batch nonce
+}
+
+func (ev c02Event) key() string {
+	return fmt.Sprintf("%s|%d|%d|%s|%d|%d|%s|%d|%d", ev.kind, ev.n, ev.eth, strings.ToLower(ev.token), ev.compass, ev.amount, ev.sender, ev.receiver, ev.batch)
+}
+
+// c02EventOf reads the identity of a stored claim back from the implementation's attestation.
+func (c *c02Harness) eventOf(claim skytypes.EthereumClaim) c02Event {
+	switch m := claim.(type) {
+	case *skytypes.MsgSendToPalomaClaim:
+		recv := 0
+		for i, u := range c.e.users {
+			if u.String() == m.PalomaReceiver {
+				recv = i
+			}
+		}
+		return c02Event{kind: "dep", n: m.SkywayNonce, eth: m.EthBlockHeight, token: m.TokenContract, compass: c02CompassIndex(m.CompassId), amount: m.Amount.Int64(), sender: m.EthereumSender, receiver: recv}
+	case *skytypes.MsgBatchSendToRemoteClaim:
+		return c02Event{kind: "exec", n: m.SkywayNonce, eth: m.EthBlockHeight, token: m.TokenContract, compass: c02CompassIndex(m.CompassId), batch: m.BatchNonce}
+	}
+	c.r.t.Fatalf("C02: unexpected claim type %T", claim)
+	return c02Event{}
+}
+
+func (c *c02Harness) msgOf(ev c02Event, orch sdk.AccAddress) sdk.Msg {
+	e := c.e
+	if ev.kind == "exec" {
+		return &skytypes.MsgBatchSendToRemoteClaim{EventNonce: ev.n, EthBlockHeight: ev.eth, BatchNonce: ev.batch, TokenContract: ev.token,
+			ChainReferenceId: skyChain, Orchestrator: orch.String(), Metadata: e.meta(orch), SkywayNonce: ev.n, CompassId: c02Compass(ev.compass)}
+	}
+	return &skytypes.MsgSendToPalomaClaim{EventNonce: ev.n, EthBlockHeight: ev.eth, TokenContract: ev.token,
+		Amount: sdkmath.NewInt(ev.amount), EthereumSender: ev.sender,
+		PalomaReceiver: e.users[ev.receiver].String(), Orchestrator: orch.String(), ChainReferenceId: skyChain, Metadata: e.meta(orch), SkywayNonce: ev.n, CompassId: c02Compass(ev.compass)}
+}
+
+// c02Batch is the harness's own record of an open batch (the reference the monitors decide against).
+type c02Batch struct {
+	id      uint64
+	total   int64
+	timeout uint64
+	txs     []int
+}
+
+func (c *c02Harness) openBatches() []c02Batch {
+	var out []c02Batch
+	for _, b := range c.e.batchList() {
+		ob := c02Batch{id: uint64(b.nonce), timeout: b.timeout}
+		for _, tx := range b.raw.Transactions {
+			ob.total += tx.Erc20Token.Amount.Int64() + tx.BridgeTaxAmount.Int64()
+			ob.txs = append(ob.txs, int(tx.Id))
+		}
+		out = append(out, ob)
+	}
+	sort.Slice(out, func(i, j int) bool { return out[i].id < out[j].id })
+	return out
+}
+
+func (c *c02Harness) bridgeState() string {
+	var bs []string
+	for _, b := range c.openBatches() {
+		bs = append(bs, fmt.Sprintf("%d:%d:%d", b.id, b.total, b.timeout))
+	}
+	bS := "-"
+	if len(bs) > 0 {
+		bS = strings.Join(bs, ",")
+	}
+	pool := int64(0)
+	for _, tx := range c.e.poolTxs() {
+		a, _ := new(big.Int).SetString(tx.amount, 10)
+		x, _ := new(big.Int).SetString(tx.tax, 10)
+		pool += a.Int64() + x.Int64()
+	}
+	return fmt.Sprintf(" open=%s pool=%d", bS, pool)
+}
+
+// executed_transfer_stays_executed: a transfer whose batch was executed on the remote chain (an
+// executed-batch claim for it took effect while the batch was open) is never again in the unbatched pool or
+// in an open batch — the effect of the claim is not undone and cannot be applied a second time.
+func (c *c02Harness) checkExecuted(op string) {
+	if len(c.executedTx) == 0 {
+		return
+	}
+	for _, tx := range c.e.poolTxs() {
+		if c.executedTx[tx.id] {
+			c.r.Hit("executed_transfer_stays_executed", fmt.Sprintf("transfer %d of an executed batch is in the unbatched pool after `%s`", tx.id, op), c.replay())
+		}
+	}
+	for _, b := range c.openBatches() {
+		for _, id := range b.txs {
+			if c.executedTx[id] {
+				c.r.Hit("executed_transfer_stays_executed", fmt.Sprintf("transfer %d of an executed batch is in open batch %d after `%s`", id, b.id, op), c.replay())
+			}
+		}
+	}
+}
+
+func runC02Case(t *testing.T, r *Rec, nops int, caseNo int) {
 	e := newSkyEnv(t, 2)
 	e.addToken("utok1", "0x1000000000000000000000000000000000000001")
-	c := &c02Harness{r: r, e: e, applied: map[string]bool{}, expectSupply: new(big.Int), claimAmt: map[string]int64{}, seenObserved: map[string]bool{}, obsCount: map[uint64]int{}, dep: 1}
+	c := &c02Harness{r: r, e: e, applied: map[string]bool{}, expectSupply: new(big.Int), claimAmt: map[string]int64{}, seenObserved: map[string]bool{}, obsCount: map[uint64]int{}, dep: 1,
+		cids: map[string]int{}, acceptedBy: map[string]map[int]bool{}, executedTx: map[int]bool{}}
 	if skyCompass != c02Compass(1) {
 		t.Fatalf("C02: the fixture's compass id %q is not %q", skyCompass, c02Compass(1))
 	}
 	c.emit("reset", "ok")
 	nv := len(skykeeper.ValAddrs)
 	nonTrivial := false
-	// the validators' view of the remote chain: up to 3 competing claims per nonce
-	mkClaim := func(n uint64, variant int, eth uint64, orch sdk.AccAddress, compass int) *skytypes.MsgSendToPalomaClaim {
-		contract := e.erc20[0]
-		if variant == 3 {
-			contract = "0x2000000000000000000000000000000000000009" // unregistered token: handler fails
-		}
-		return &skytypes.MsgSendToPalomaClaim{EventNonce: n, EthBlockHeight: eth, TokenContract: contract,
-			Amount: sdkmath.NewInt(int64(100*variant) + int64(n)), EthereumSender: "0x00000000000000000000000000000000000000bb",
-			PalomaReceiver: e.users[0].String(), Orchestrator: orch.String(), ChainReferenceId: skyChain, Metadata: e.meta(orch), SkywayNonce: n, CompassId: c02Compass(compass)}
-	}
-	ethOf := map[uint64]uint64{}
+	// the validators' view of the remote chain: one honest event per nonce; a competing claim differs from it
+	// in exactly ONE field (any of them), so that every field's part in the claim's identity is exercised
+	evOf := map[uint64]c02Event{}
 	ethBase := uint64(100) // remote heights reported after a re-deployment start above everything observed before
 	nextContract := uint64(2)
+	maxBatch := uint64(0)
 	burst, burstStart := 0, 0
+
+	baseEvent := func(n uint64) c02Event {
+		if ev, ok := evOf[n]; ok {
+			return ev
+		}
+		ev := c02Event{kind: "dep", n: n, eth: ethBase + 10*n, token: e.erc20[0], compass: c.dep, amount: 100 + int64(n), sender: c02Senders[0]}
+		if r.Rng.Intn(12) == 0 {
+			ev.eth = 50 // a remote height below an earlier one: TryAttestation refuses it
+		}
+		open := c.openBatches()
+		if (len(open) > 0 && r.Rng.Intn(2) == 0) || r.Rng.Intn(8) == 0 {
+			ev.kind, ev.amount, ev.sender = "exec", 0, ""
+			ev.batch = 1 + uint64(r.Rng.Intn(int(maxBatch)+2)) // any batch nonce: open, gone, or not built yet
+			if len(open) > 0 && r.Rng.Intn(6) != 0 {
+				b := open[r.Rng.Intn(len(open))]
+				ev.batch = b.id
+				if r.Rng.Intn(12) == 0 {
+					ev.eth = b.timeout - 1 + uint64(r.Rng.Intn(3)) // the `BatchTimeout <= EthBlockHeight` edge
+					r.Stat("exec.eth_at_timeout")
+				}
+			}
+		}
+		evOf[n] = ev
+		return ev
+	}
+	mutate := func(ev c02Event) c02Event {
+		fields := 6
+		switch r.Rng.Intn(fields) {
+		case 0:
+			ev.compass = 1 + (ev.compass+r.Rng.Intn(2))%3
+			r.Stat("vote.differs_in.compass")
+		case 1:
+			ev.token = c02OtherToken
+			r.Stat("vote.differs_in.token")
+		case 2:
+			ev.eth += 1 + uint64(r.Rng.Intn(3))
+			r.Stat("vote.differs_in.height")
+		case 3:
+			if ev.kind == "exec" {
+				ev.batch = 1 + (ev.batch+uint64(r.Rng.Intn(2)))%(maxBatch+2)
+				r.Stat("vote.differs_in.batch")
+			} else {
+				ev.amount += 100 * int64(1+r.Rng.Intn(2))
+				r.Stat("vote.differs_in.amount")
+			}
+		case 4:
+			if ev.kind == "exec" {
+				ev.compass = 1 + (ev.compass+r.Rng.Intn(2))%3
+				r.Stat("vote.differs_in.compass")
+			} else {
+				ev.sender = c02Senders[1]
+				r.Stat("vote.differs_in.sender")
+			}
+		default:
+			if ev.kind == "exec" {
+				ev.batch = 1 + (ev.batch+uint64(r.Rng.Intn(2)))%(maxBatch+2)
+				r.Stat("vote.differs_in.batch")
+			} else {
+				ev.receiver = 1 - ev.receiver
+				r.Stat("vote.differs_in.receiver")
+			}
+		}
+		return ev
+	}
+
+	doVote := func(v int, ev c02Event) string {
+		m := c.msgOf(ev, e.orch(v))
+		h, _ := m.(skytypes.EthereumClaim).ClaimHash()
+		hs := new(big.Int).SetBytes(h).String()
+		key := ev.key()
+		cid, ok := c.cids[key]
+		if !ok {
+			cid = len(c.cids) + 1
+			c.cids[key] = cid
+		}
+		var op string
+		if ev.kind == "exec" {
+			id := ev.batch
+			if !strings.EqualFold(ev.token, e.erc20[0]) {
+				id = 0 // batches are keyed by (token, nonce): a claim naming another token names no batch of ours
+			}
+			op = fmt.Sprintf("votex %d %d %s %d %d %d %d", v+1, ev.n, hs, ev.eth, id, ev.compass, cid)
+		} else {
+			appl := 1
+			if !strings.EqualFold(ev.token, e.erc20[0]) {
+				appl = 0
+			} else {
+				c.claimAmt[fmt.Sprintf("%d/%s", ev.n, key)] = ev.amount
+			}
+			op = fmt.Sprintf("vote %d %d %s %d %d %d %d %d", v+1, ev.n, hs, ev.eth, appl, ev.amount, ev.compass, cid)
+		}
+		res := e.runMsg(func(ctx sdk.Context) error {
+			switch mm := m.(type) {
+			case *skytypes.MsgSendToPalomaClaim:
+				_, err := e.ms.SendToPalomaClaim(ctx, mm)
+				return err
+			case *skytypes.MsgBatchSendToRemoteClaim:
+				_, err := e.ms.BatchSendToRemoteClaim(ctx, mm)
+				return err
+			}
+			return fmt.Errorf("unknown claim")
+		})
+		if res == "ok" {
+			if c.acceptedBy[key] == nil {
+				c.acceptedBy[key] = map[int]bool{}
+			}
+			c.acceptedBy[key][v+1] = true
+		}
+		c.emit(op, res+" "+c.state())
+		r.Stat("vote." + ev.kind + "." + res)
+		c.checkVotes(op)
+		c.checkGap(op)
+		return res
+	}
+
+	doSend := func() {
+		u := r.Rng.Intn(len(e.users))
+		amt := sdkmath.NewInt(int64(1 + r.Rng.Intn(500)))
+		e.fund(u+1, 1, amt)
+		res := e.runMsg(func(ctx sdk.Context) error {
+			_, err := e.ms.SendToRemote(ctx, &skytypes.MsgSendToRemote{EthDest: "0x00000000000000000000000000000000000000aa", Amount: sdk.Coin{Denom: e.denoms[0], Amount: amt}, ChainReferenceId: skyChain, Metadata: e.meta(e.users[u])})
+			return err
+		})
+		if res != "ok" {
+			t.Fatalf("C02: SendToRemote of %s refused", amt)
+		}
+		c.emit(fmt.Sprintf("send %s", amt), c.state())
+		r.Stat("op.send")
+	}
+	doBuild := func() {
+		contract, _ := skytypes.NewEthAddress(e.erc20[0])
+		bt, err := e.k.BuildOutgoingTXBatch(e.ctx, skyChain, *contract, skykeeper.OutgoingTxBatchSize)
+		if err != nil {
+			t.Fatalf("C02: BuildOutgoingTXBatch: %v", err)
+		}
+		if bt != nil && bt.BatchNonce > maxBatch {
+			maxBatch = bt.BatchNonce
+		}
+		op := fmt.Sprintf("build %d", e.now.Unix())
+		c.emit(op, c.state())
+		r.Stat("op.build")
+		c.checkExecuted(op)
+	}
+
+	// timeMode: 0 = two seconds later; 1 = right at the timeout of an open batch (not yet expired);
+	// 2 = one second past it (the first block in which it is expired); 3 = eleven minutes later
+	doEndBlock := func(timeMode int, allowFault bool) {
+		powers := make([]int64, nv)
+		total := int64(0)
+		mode := r.Rng.Intn(4)
+		for j := range powers {
+			switch mode {
+			case 0:
+				powers[j] = 10
+			case 1:
+				powers[j] = int64(r.Rng.Intn(4))
+			default:
+				powers[j] = int64(r.Rng.Intn(100))
+			}
+			total += powers[j]
+		}
+		outside := int64(0)
+		if r.Rng.Intn(4) == 0 {
+			outside = int64(r.Rng.Intn(50)) // bonded power outside our five validators
+			total += outside
+		}
+		for j, v := range skykeeper.ValAddrs {
+			if err := e.in.StakingKeeper.SetLastValidatorPower(e.ctx, v, powers[j]); err != nil {
+				t.Fatal(err)
+			}
+		}
+		if err := e.in.StakingKeeper.SetLastTotalPower(e.ctx, sdkmath.NewInt(total)); err != nil {
+			t.Fatal(err)
+		}
+		h := e.height + 1
+		kind := "endblock"
+		if r.Rng.Intn(4) == 0 {
+			h = (e.height/50 + 1) * 50
+			kind = "endblock50"
+		}
+		now := e.now.Add(2 * time.Second)
+		if open := c.openBatches(); len(open) > 0 && (timeMode == 1 || timeMode == 2) {
+			// the batch an undecided executed-batch claim names, if there is one: quorum and expiry in one block
+			b := open[r.Rng.Intn(len(open))]
+			for _, a := range c.atts() {
+				if !a.observed && a.ev.kind == "exec" {
+					for _, ob := range open {
+						if ob.id == a.ev.batch {
+							b = ob
+						}
+					}
+				}
+			}
+			target := time.Unix(int64(b.timeout), 0).UTC()
+			if timeMode == 2 {
+				target = target.Add(time.Second)
+			}
+			if target.After(e.now) {
+				now = target
+				r.Stat(fmt.Sprintf("tally.block_time_at_timeout+%d", timeMode-1))
+			}
+		} else if timeMode == 3 {
+			now = e.now.Add(11 * time.Minute)
+			r.Stat("tally.block_time_+11min")
+		}
+		e.setBlock(h, now)
+		before := c.atts()
+		supBefore := e.in.BankKeeper.GetSupply(e.ctx, e.denoms[0]).Amount
+		lastBefore, _ := e.raw.GetLastObservedSkywayNonce(e.ctx, skyChain)
+		// the batches an executed-batch claim of this block can still find: those in the store now, and the one
+		// createBatch builds from the waiting transfers before the tally (every 50th block)
+		refOpen := c.openBatches()
+		if pool := e.poolTxs(); kind == "endblock50" && len(pool) > 0 {
+			nb := c02Batch{id: maxBatch + 1, timeout: uint64(now.Add(10 * time.Minute).Unix())}
+			for _, tx := range pool {
+				a, _ := new(big.Int).SetString(tx.amount, 10)
+				x, _ := new(big.Int).SetString(tx.tax, 10)
+				nb.total += a.Int64() + x.Int64()
+				nb.txs = append(nb.txs, tx.id)
+			}
+			refOpen = append(refOpen, nb)
+			maxBatch++
+			r.Stat("tally.builds_batch")
+		}
+		// collaborator fault: in one tally out of three the chain-info lookup behind ONE of the
+		// observation events of this block fails (their number is counted on a throw-away branch
+		// first). The claim is then already applied; TryAttestation returns the error and the rest of
+		// this chain's tally is skipped (model: `eventFailed`). An observed claim whose effect is
+		// missing shows up in `applied_exactly_once` and in the state line.
+		e.fault.Reset("", 0)
+		faulted := "-"
+		if allowFault && r.Rng.Intn(3) == 0 {
+			// the chain-info lookups of an end block, in order: one if createBatch builds a batch, then one per
+			// observation event of the tally, then one per cancelled batch
+			cctx, _ := e.ctx.CacheContext()
+			skyway.EndBlocker(cctx, e.k, e.cc)
+			saved := e.ctx
+			e.ctx = cctx
+			dry := c.atts()
+			e.ctx = saved
+			wasObs := map[string]bool{}
+			for _, a := range before {
+				wasObs[fmt.Sprintf("%d/%s", a.nonce, a.hash)] = a.observed
+			}
+			ko, kb := 0, 0
+			for _, a := range dry {
+				if a.observed && !wasObs[fmt.Sprintf("%d/%s", a.nonce, a.hash)] {
+					ko++
+				}
+			}
+			if kind == "endblock50" && len(e.poolTxs()) > 0 {
+				kb = 1
+			}
+			if ko > 0 {
+				e.fault.Reset("evm.chaininfo", kb+1+r.Rng.Intn(ko))
+				r.Stat("tally.fault_at_observation_event")
+			} else {
+				e.fault.Reset("", 0)
+			}
+		}
+		e.endBlock()
+		if e.fault.Target != "" {
+			if !e.fault.Fired {
+				t.Fatalf("C02: the planned fault did not fire (calls %v)", e.fault.Counts)
+			}
+			// the tally stopped right after the observation whose event failed: it is the newly
+			// observed attestation with the highest nonce
+			wasObs := map[string]bool{}
+			for _, a := range before {
+				wasObs[fmt.Sprintf("%d/%s", a.nonce, a.hash)] = a.observed
+			}
+			var hi *c02Att
+			for _, a := range c.atts() {
+				a := a
+				if a.observed && !wasObs[fmt.Sprintf("%d/%s", a.nonce, a.hash)] && (hi == nil || a.nonce > hi.nonce) {
+					hi = &a
+				}
+			}
+			if hi == nil {
+				t.Fatalf("C02: an observation event failed but nothing was observed")
+			}
+			faulted = fmt.Sprintf("%d:%s", hi.nonce, hi.hash)
+		}
+		e.fault.Reset("", 0)
+		ps := make([]string, nv)
+		for j := range powers {
+			ps[j] = fmt.Sprintf("%d:%d", j+1, powers[j])
+		}
+		if outside > 0 {
+			// the model derives the total from the power table (staking keeps LastTotalPower equal to the
+			// sum of the LastValidatorPower records): the outside power is the row of a sixth, never voting validator
+			ps = append(ps, fmt.Sprintf("%d:%d", nv+1, outside))
+		}
+		op := fmt.Sprintf("%s %s %d %s %d", kind, strings.Join(ps, ","), total, faulted, now.Unix())
+		c.emit(op, c.state())
+		r.Stat("op." + kind)
+		// ---- monitors ----
+		was := map[string]bool{}
+		for _, a := range before {
+			was[fmt.Sprintf("%d/%s", a.nonce, a.hash)] = a.observed
+		}
+		minted, burned := int64(0), int64(0)
+		cursor := lastBefore
+		for _, a := range c.atts() { // ascending nonce: the order in which the tally observed them
+			key := fmt.Sprintf("%d/%s", a.nonce, a.hash)
+			if a.observed && !was[key] {
+				nonTrivial = true
+				r.Stat("observed." + a.ev.kind)
+				// quorum over the SET of voters with the table of this very tally
+				set := map[int]bool{}
+				sum := int64(0)
+				for _, v := range a.votes {
+					if !set[v] {
+						set[v] = true
+						sum += powers[v-1]
+					}
+				}
+				if !(100*sum > 66*total) {
+					r.Hit("observed_has_quorum", fmt.Sprintf("attestation %d observed with %d of %d power after `%s`", a.nonce, sum, total, op), c.replay())
+				}
+				// "have each voted for that identical claim": the claim that takes effect is the stored one; a
+				// validator counts towards it only if it submitted a claim equal to it in EVERY field
+				same := int64(0)
+				for v := range set {
+					if c.acceptedBy[a.ev.key()][v] {
+						same += powers[v-1]
+					} else {
+						r.Hit("counted_votes_are_for_identical_claim", fmt.Sprintf("validator %d is counted for the claim observed at nonce %d (%s) but never voted for that claim after `%s`", v, a.nonce, a.ev.key(), op), c.replay())
+					}
+				}
+				if !(100*same > 66*total) {
+					r.Hit("counted_votes_are_for_identical_claim", fmt.Sprintf("claim %s observed at nonce %d with %d of %d power behind that identical claim after `%s`", a.ev.key(), a.nonce, same, total, op), c.replay())
+				}
+				if a.nonce != cursor+1 {
+					r.Hit("consecutive_order", fmt.Sprintf("nonce %d observed while the cursor stood at %d", a.nonce, cursor), c.replay())
+				}
+				// per bridge deployment: only claims of the deployment on record are tallied
+				if c.dep != 0 && a.compass != c.dep {
+					r.Hit("observed_of_current_deployment", fmt.Sprintf("claim of deployment %d observed at nonce %d while deployment %d is on record after `%s`", a.compass, a.nonce, c.dep, op), c.replay())
+				}
+				cursor = a.nonce
+				if c.seenObserved[fmt.Sprint(a.nonce)] {
+					r.Hit("one_claim_per_nonce", fmt.Sprintf("second claim observed at nonce %d in one epoch", a.nonce), c.replay())
+				}
+				c.seenObserved[fmt.Sprint(a.nonce)] = true
+				c.obsCount[a.nonce]++
+				if a.ev.kind == "dep" {
+					minted += c.claimAmt[fmt.Sprintf("%d/%s", a.nonce, a.ev.key())]
+				} else if strings.EqualFold(a.ev.token, e.erc20[0]) {
+					// an executed-batch claim CAN be applied iff its batch is open when the claim takes effect
+					// and the claim's remote height lies before the batch timeout; then it MUST be: vouchers
+					// burned, batch gone for good, its transfers neither in the pool nor in another batch
+					for i, b := range refOpen {
+						if b.id == a.ev.batch && a.ev.eth < b.timeout {
+							r.Stat("observed.exec.applicable")
+							if b.timeout < uint64(now.Unix()) {
+								r.Stat("observed.exec.applicable_in_expiry_block")
+							}
+							burned += b.total
+							for _, id := range b.txs {
+								c.executedTx[id] = true
+							}
+							for _, ob := range c.openBatches() {
+								if ob.id == b.id {
+									r.Hit("executed_batch_applied_exactly_once", fmt.Sprintf("the claim for batch %d took effect at nonce %d while the batch was open, but the batch is still in the store after `%s`", b.id, a.nonce, op), c.replay())
+								}
+							}
+							refOpen = append(refOpen[:i:i], refOpen[i+1:]...)
+							break
+						}
+					}
+				}
+			}
+		}
+		c.checkGap(op)
+		c.checkExecuted(op)
+		got := e.in.BankKeeper.GetSupply(e.ctx, e.denoms[0]).Amount.Sub(supBefore).Int64()
+		if got != minted-burned {
+			r.Hit("applied_exactly_once", fmt.Sprintf("this end block changed the supply by %d but the newly observed applicable claims mint %d and burn %d after `%s`", got, minted, burned, op), c.replay())
+		}
+	}
+
+	// directed opening (one case in three): a batch, its executed-batch claim voted by enough validators, and the
+	// tally in a block right before / at / right after the batch timeout
+	if caseNo%3 == 0 {
+		doSend()
+		if r.Rng.Intn(2) == 0 {
+			doSend()
+		}
+		doBuild()
+		for k := r.Rng.Intn(3); k > 0; k-- {
+			doEndBlock(0, false)
+		}
+		last, _ := e.raw.GetLastObservedSkywayNonce(e.ctx, skyChain)
+		ev := baseEvent(last + 1)
+		for v := 0; v < nv; v++ {
+			if r.Rng.Intn(6) != 0 {
+				vl, _ := e.raw.GetLastSkywayNonceByValidator(e.ctx, skykeeper.ValAddrs[v], skyChain)
+				if vl+1 == ev.n {
+					doVote(v, ev)
+				}
+			}
+		}
+		doEndBlock(r.Rng.Intn(4), false)
+		r.Stat("case.directed_opening")
+	}
+
 	for i := 0; i < nops; i++ {
 		x := r.Rng.Intn(100)
 		switch {
-		case x < 62: // a validator votes (in bursts, so that quorums actually form)
+		case x < 58: // a validator votes (in bursts, so that quorums actually form)
 			v := r.Rng.Intn(nv)
 			if burst > 0 {
 				burst--
@@ -240,179 +757,24 @@ func runC02Case(t *testing.T, r *Rec, nops int) {
 			if n == 0 {
 				n = 1
 			}
-			variant := 1
+			ev := baseEvent(n)
 			if r.Rng.Intn(4) == 0 {
-				variant = 2 + r.Rng.Intn(2)
+				ev = mutate(ev)
 			}
-			if _, ok := ethOf[n]; !ok {
-				ethOf[n] = ethBase + 10*n
-				if r.Rng.Intn(12) == 0 {
-					ethOf[n] = 50 // a remote height below an earlier one: TryAttestation errors after moving the cursor
-				}
-			}
-			eth := ethOf[n]
-			// the claim's bridge deployment: mostly the current one, sometimes another (Attest stores it
-			// all the same; only the tally's mapping leaves it out)
-			compass := c.dep
-			if r.Rng.Intn(6) == 0 {
-				compass = 1 + r.Rng.Intn(3)
-			}
-			if compass != c.dep {
+			if ev.compass != c.dep {
 				r.Stat("vote.other_deployment")
 			}
-			m := mkClaim(n, variant, eth, e.orch(v), compass)
-			h, _ := m.ClaimHash()
-			hs := new(big.Int).SetBytes(h).String()
-			appl := 1
-			if variant == 3 {
-				appl = 0
-			} else {
-				c.claimAmt[fmt.Sprintf("%d/%s", n, hs)] = m.Amount.Int64()
-			}
-			res := e.runMsg(func(ctx sdk.Context) error {
-				_, err := e.ms.SendToPalomaClaim(ctx, m)
-				return err
-			})
-			op := fmt.Sprintf("vote %d %d %s %d %d %d %d", v+1, n, hs, eth, appl, m.Amount.Int64(), compass)
-			c.emit(op, res+" "+c.state())
-			r.Stat("vote." + res)
-			c.checkVotes(op)
-			c.checkGap(op)
-		case x < 86: // end of block: tally with a fresh power table
-			powers := make([]int64, nv)
-			total := int64(0)
-			mode := r.Rng.Intn(4)
-			for j := range powers {
-				switch mode {
-				case 0:
-					powers[j] = 10
-				case 1:
-					powers[j] = int64(r.Rng.Intn(4))
-				default:
-					powers[j] = int64(r.Rng.Intn(100))
-				}
-				total += powers[j]
-			}
-			outside := int64(0)
-			if r.Rng.Intn(4) == 0 {
-				outside = int64(r.Rng.Intn(50)) // bonded power outside our five validators
-				total += outside
-			}
-			for j, v := range skykeeper.ValAddrs {
-				if err := e.in.StakingKeeper.SetLastValidatorPower(e.ctx, v, powers[j]); err != nil {
-					t.Fatal(err)
-				}
-			}
-			if err := e.in.StakingKeeper.SetLastTotalPower(e.ctx, sdkmath.NewInt(total)); err != nil {
-				t.Fatal(err)
-			}
-			h := e.height + 1
-			kind := "endblock"
-			if r.Rng.Intn(4) == 0 {
-				h = (e.height/50 + 1) * 50
-				kind = "endblock50"
-			}
-			e.setBlock(h, e.now.Add(2*time.Second))
-			before := c.atts()
-			supBefore := e.in.BankKeeper.GetSupply(e.ctx, e.denoms[0]).Amount
-			lastBefore, _ := e.raw.GetLastObservedSkywayNonce(e.ctx, skyChain)
-			// collaborator fault: in one tally out of three the chain-info lookup behind ONE of the
-			// observation events of this block fails (their number is counted on a throw-away branch
-			// first). The claim is then already applied; TryAttestation returns the error and the rest of
-			// this chain's tally is skipped (model: `eventFailed`). An observed claim whose effect is
-			// missing shows up in `applied_exactly_once` and in the state line.
-			e.fault.Reset("", 0)
-			faulted := "-"
+			doVote(v, ev)
+		case x < 80: // end of block: tally with a fresh power table
+			tm := 0
 			if r.Rng.Intn(3) == 0 {
-				cctx, _ := e.ctx.CacheContext()
-				skyway.EndBlocker(cctx, e.k, e.cc)
-				if n := e.fault.Counts["evm.chaininfo"]; n > 0 {
-					e.fault.Reset("evm.chaininfo", 1+r.Rng.Intn(n))
-					r.Stat("tally.fault_at_observation_event")
-				} else {
-					e.fault.Reset("", 0)
-				}
+				tm = 1 + r.Rng.Intn(3)
 			}
-			e.endBlock()
-			if e.fault.Target != "" {
-				if !e.fault.Fired {
-					t.Fatalf("C02: the planned fault did not fire (calls %v)", e.fault.Counts)
-				}
-				// the tally stopped right after the observation whose event failed: it is the newly
-				// observed attestation with the highest nonce
-				wasObs := map[string]bool{}
-				for _, a := range before {
-					wasObs[fmt.Sprintf("%d/%s", a.nonce, a.hash)] = a.observed
-				}
-				var hi *c02Att
-				for _, a := range c.atts() {
-					a := a
-					if a.observed && !wasObs[fmt.Sprintf("%d/%s", a.nonce, a.hash)] && (hi == nil || a.nonce > hi.nonce) {
-						hi = &a
-					}
-				}
-				if hi == nil {
-					t.Fatalf("C02: an observation event failed but nothing was observed")
-				}
-				faulted = fmt.Sprintf("%d:%s", hi.nonce, hi.hash)
-			}
-			e.fault.Reset("", 0)
-			ps := make([]string, nv)
-			for j := range powers {
-				ps[j] = fmt.Sprintf("%d:%d", j+1, powers[j])
-			}
-			if outside > 0 {
-				// the model derives the total from the power table (staking keeps LastTotalPower equal to the
-				// sum of the LastValidatorPower records): the outside power is the row of a sixth, never voting validator
-				ps = append(ps, fmt.Sprintf("%d:%d", nv+1, outside))
-			}
-			op := fmt.Sprintf("%s %s %d %s", kind, strings.Join(ps, ","), total, faulted)
-			c.emit(op, c.state())
-			r.Stat("op." + kind)
-			// ---- monitors ----
-			was := map[string]bool{}
-			for _, a := range before {
-				was[fmt.Sprintf("%d/%s", a.nonce, a.hash)] = a.observed
-			}
-			minted := int64(0)
-			cursor := lastBefore
-			for _, a := range c.atts() {
-				key := fmt.Sprintf("%d/%s", a.nonce, a.hash)
-				if a.observed && !was[key] {
-					nonTrivial = true
-					r.Stat("observed")
-					// quorum over the SET of voters with the table of this very tally
-					set := map[int]bool{}
-					sum := int64(0)
-					for _, v := range a.votes {
-						if !set[v] {
-							set[v] = true
-							sum += powers[v-1]
-						}
-					}
-					if !(100*sum > 66*total) {
-						r.Hit("observed_has_quorum", fmt.Sprintf("attestation %d observed with %d of %d power after `%s`", a.nonce, sum, total, op), c.replay())
-					}
-					if a.nonce != cursor+1 {
-						r.Hit("consecutive_order", fmt.Sprintf("nonce %d observed while the cursor stood at %d", a.nonce, cursor), c.replay())
-					}
-					// per bridge deployment: only claims of the deployment on record are tallied
-					if c.dep != 0 && a.compass != c.dep {
-						r.Hit("observed_of_current_deployment", fmt.Sprintf("claim of deployment %d observed at nonce %d while deployment %d is on record after `%s`", a.compass, a.nonce, c.dep, op), c.replay())
-					}
-					cursor = a.nonce
-					if c.seenObserved[fmt.Sprint(a.nonce)] {
-						r.Hit("one_claim_per_nonce", fmt.Sprintf("second claim observed at nonce %d in one epoch", a.nonce), c.replay())
-					}
-					c.seenObserved[fmt.Sprint(a.nonce)] = true
-					c.obsCount[a.nonce]++
-					minted += c.claimAmt[key]
-				}
-			}
-			c.checkGap(op)
-			got := e.in.BankKeeper.GetSupply(e.ctx, e.denoms[0]).Amount.Sub(supBefore).Int64()
-			if got != minted {
-				r.Hit("applied_exactly_once", fmt.Sprintf("this tally minted %d but the newly observed applicable claims total %d", got, minted), c.replay())
+			doEndBlock(tm, true)
+		case x < 86: // a user sends tokens to the remote chain; mostly a batch is built right away
+			doSend()
+			if r.Rng.Intn(3) != 0 {
+				doBuild()
 			}
 		case x < 93: // governance nonce override
 			last, _ := e.raw.GetLastObservedSkywayNonce(e.ctx, skyChain)
@@ -445,7 +807,7 @@ func runC02Case(t *testing.T, r *Rec, nops int) {
 			c.epochStart, c.obsCount = 0, map[uint64]int{}
 			// the remote chain goes on: later events are reported at heights above everything seen so far
 			ethBase = e.raw.GetLastObservedEthereumBlockHeight(e.ctx, skyChain).EthereumBlockHeight + 100
-			ethOf = map[uint64]uint64{}
+			evOf = map[uint64]c02Event{}
 			op := fmt.Sprintf("activate %d", k)
 			c.emit(op, c.state())
 			r.Stat("op.activate")
